@@ -76,7 +76,7 @@ def floors(tier):
         "runs:clock_sum_checked": 400 * k,
         "decided:outside_time_charges_nonzero": 50000 * k,
         "decided:completion_time_polls": 20000 * k,
-        "F:runs": 250 * k,
+        "F:runs": 200 * k,
         "F:decided:level_sequences": 500 * k,
         "F:resumed_runs:checkpointing:non_contiguous_fidelities": 100 * k,
         "F:trials_with_max_resource_attr:off_the_fidelity_grid": 60 * k,
